@@ -56,7 +56,10 @@ RULE = ('cases: synthesized dynamic images (both classes/byte orders; common, MI
         'another quarter ("foreign") carry there ANOTHER array linked to ANOTHER string table with other strings at the same '
         'indices (segment views certified by seg_consistent_b and compared against the table DT_STRTAB designates); hash tables '
         'are real ones (standard hash functions, bloom filter, buckets, chains), a third of the symbols share their name with '
-        'another one, get_symbol_by_name is asked first thing on a fresh object and again after a miss; every observation of the '
+        'another one, get_symbol_by_name is asked first thing on a fresh object and again after a miss; a HISTORY per case and view on '
+        'ONE object: a tag walk (with or without type filter) is started, k tags taken, then num_tags / get_tag(n) / num_symbols / '
+        'iter_symbols / get_table_offset / get_relocation_tables / a second walk are put to the same object and the first walk '
+        'resumed to its end - all answers must be the stateless ones; every observation of the '
         'implementation is bounded by a 10 s timer; a malformed stream (no terminator, unmapped pointers, bad links, bad indices) is '
         'out of domain; plus the seed libraries.  distinct = hash(kind, abstract); non-trivial = more than 3 tags or a hash '
         'table or a relocation table')
@@ -111,15 +114,21 @@ IMPL_SECONDS = 10
 
 
 class _limit:
-    """bound one observation of the implementation: a loop that does not end becomes ImplTimeout"""
+    """bound one observation of the implementation: a loop that does not end becomes ImplTimeout
+    (reentrant: the outermost use owns the timer)"""
+    depth = 0
     def __enter__(self):
-        def handler(signum, frame):
-            raise ImplTimeout()
-        self.old = signal.signal(signal.SIGALRM, handler)
-        signal.setitimer(signal.ITIMER_REAL, IMPL_SECONDS)
+        _limit.depth += 1
+        if _limit.depth == 1:
+            def handler(signum, frame):
+                raise ImplTimeout()
+            self.old = signal.signal(signal.SIGALRM, handler)
+            signal.setitimer(signal.ITIMER_REAL, IMPL_SECONDS)
     def __exit__(self, *a):
-        signal.setitimer(signal.ITIMER_REAL, 0)
-        signal.signal(signal.SIGALRM, self.old)
+        _limit.depth -= 1
+        if _limit.depth == 0:
+            signal.setitimer(signal.ITIMER_REAL, 0)
+            signal.signal(signal.SIGALRM, self.old)
         return False
 
 
@@ -300,12 +309,27 @@ def _gen_image(ctx, rng, malformed):
             ['shpad', rng.choice([0, 0, 16])], ['filesz_exact', rng.random() < 0.5], ['mut', mut]]
 
 
+def _gen_history(rng):
+    """a history on ONE Dynamic object: start a tag walk (type filter chosen by position in the tag list, by
+    name, or none), take k tags, put other questions to the same object, then resume the walk to its end"""
+    def tsel():
+        return rng.choice([None, None, ['idx', rng.randrange(40)], ['idx', rng.randrange(40)], ['name', 'DT_NULL'],
+                           ['name', 'DT_NEEDED'], ['name', 'DT_FLAGS_1']])
+    ops = []
+    for _ in range(rng.randint(1, 3)):
+        ops.append(rng.choice([['num_tags'], ['num_tags'], ['get_tag', rng.randrange(40)], ['num_symbols'], ['symbols'],
+                               ['table_offset', rng.choice(TABLE_NAMES)], ['relocs'], ['walk', tsel()]]))
+    return [tsel(), rng.choice([0, 1, 1, 2, 3, 5, 8]), ops]
+
+
 def gen(ctx):
     rng = ctx.rng
     cases = []
     n = ctx.scale(260, 4000)
     for i in range(n):
-        cases.append(('img', _gen_image(ctx, rng, malformed=(i % 8 == 7))))
+        a = _gen_image(ctx, rng, malformed=(i % 8 == 7))
+        a.append(['hist', _gen_history(rng)])
+        cases.append(('img', a))
     d = os.path.join(str(REPO), 'test', 'testfiles_for_unittests')
     limit = ctx.scale(60000, 600000)
     for fn in sorted(os.listdir(d)):
@@ -317,7 +341,7 @@ def gen(ctx):
         if data[:4] != b'\x7fELF' or data[4] not in (1, 2) or data[5] not in (1, 2):
             continue
         if _has_dynamic(data):
-            cases.append(('file', [fn]))
+            cases.append(('file', [fn, _gen_history(rng)]))
     return cases
 
 
@@ -809,6 +833,114 @@ class NoDynsym(_NoSuch):
     pass
 
 
+def _relocs_of(d):
+    out = []
+    for k, t in d.get_relocation_tables().items():
+        def ents(t=t, k=k):
+            res = []
+            for r in t.iter_relocations():
+                en = r.entry
+                if k == 'RELR':
+                    res.append([en['r_offset'], 0, 'none'])
+                else:
+                    res.append([en['r_offset'], en['r_info'], ['some', en['r_addend']] if 'r_addend' in en else 'none'])
+            return res
+        out.append([k, 0 if k == 'RELR' else int(t.is_RELA()), _ok(ents)])
+    return out
+
+
+def _offset_of(d, n):
+    p, o = d.get_table_offset(n)
+    return ['none' if p is None else ['some', p], 'none' if o is None else ['some', o]]
+
+
+# ---- histories on one object
+def _hist_type(tsel, tags):
+    if tsel is None:
+        return None
+    if tsel[0] == 'name':
+        return tsel[1]
+    t = tags[tsel[1] % len(tags)][0] if tags else None
+    return t if isinstance(t, str) else None
+
+
+def _history_impl(make, hist, tags, view):
+    """run the history on ONE object; answers in the shape _history_expected gives"""
+    tsel, k, ops = hist
+    def run():
+        d = make()
+        ty = _hist_type(tsel, tags)
+        it = d.iter_tags(ty)
+        got = []
+        for _ in range(k):
+            try:
+                got.append(_tagrepr(next(it)))
+            except StopIteration:
+                break
+        answers = []
+        for op in ops:
+            def do(op=op):
+                if op[0] == 'num_tags' or (view == 'sec' and op[0] in ('num_symbols', 'symbols')):
+                    return d.num_tags()
+                if op[0] == 'get_tag':
+                    return _tagrepr(d.get_tag(op[1] % (len(tags) + 2)))
+                if op[0] == 'num_symbols':
+                    return d.num_symbols()
+                if op[0] == 'symbols':
+                    return [_symrepr(x) for x in d.iter_symbols()]
+                if op[0] == 'table_offset':
+                    return _offset_of(d, op[1])
+                if op[0] == 'relocs':
+                    return _relocs_of(d)
+                if op[0] == 'walk':
+                    return [_tagrepr(t) for t in d.iter_tags(_hist_type(op[1], tags))]
+                raise ValueError(op)
+            try:
+                answers.append(['ok', do()])
+            except ImplTimeout:
+                raise
+            except Exception as e:   # noqa
+                answers.append(['err', type(e).__name__])
+        got += [_tagrepr(t) for t in it]
+        return [got, answers]
+    return _ok(run)
+
+
+def _history_expected(core_v, sym_v, hist, tags, view, in_sym):
+    """the stateless answers: what every question yields on a fresh object"""
+    tsel, k, ops = hist
+    mine = core_v[0][1]
+    def walk(ts):
+        ty = _hist_type(ts, tags)
+        return [x for x in mine if ty is None or x[0] == ty]
+    answers = []
+    for op in ops:
+        if op[0] == 'num_tags' or (view == 'sec' and op[0] in ('num_symbols', 'symbols')):
+            answers.append(core_v[1])
+        elif op[0] == 'get_tag':
+            n = op[1] % (len(tags) + 2)
+            answers.append(['ok', mine[n]] if n < len(mine) else ['err', 'IndexError'])
+        elif op[0] == 'num_symbols':
+            answers.append(sym_v[0] if in_sym else 'n/a')
+        elif op[0] == 'symbols':
+            answers.append(sym_v[1] if in_sym else 'n/a')
+        elif op[0] == 'table_offset':
+            answers.append(['ok', core_v[2][1][TABLE_NAMES.index(op[1])]] if core_v[2][0] == 'ok' else core_v[2])
+        elif op[0] == 'relocs':
+            answers.append(core_v[3])
+        elif op[0] == 'walk':
+            answers.append(['ok', walk(op[1])])
+    return ['ok', [walk(tsel), answers]]
+
+
+def _history_mask(impl, spec):
+    """answers the spec does not speak about (symbols outside sym_consistent_b) are not compared"""
+    if impl[0] != 'ok' or spec[0] != 'ok':
+        return impl
+    ans = [('n/a' if s == 'n/a' else a) for a, s in zip(impl[1][1], spec[1][1])]
+    return ['ok', [impl[1][0], ans]]
+
+
 def _ok(f):
     try:
         with _limit():
@@ -825,27 +957,10 @@ def _observe_dyn(make, with_symbols, names):
     except Exception as e:   # noqa
         return ['err', type(e).__name__], None
     def relocs():
-        d = make()
-        out = []
-        for k, t in d.get_relocation_tables().items():
-            def ents(t=t, k=k):
-                res = []
-                for r in t.iter_relocations():
-                    en = r.entry
-                    if k == 'RELR':
-                        res.append([en['r_offset'], 0, 'none'])
-                    else:
-                        res.append([en['r_offset'], en['r_info'], ['some', en['r_addend']] if 'r_addend' in en else 'none'])
-                return res
-            out.append([k, 0 if k == 'RELR' else int(t.is_RELA()), _ok(ents)])
-        return out
+        return _relocs_of(make())
     def offs():
         d = make()
-        out = []
-        for n in TABLE_NAMES:
-            p, o = d.get_table_offset(n)
-            out.append(['none' if p is None else ['some', p], 'none' if o is None else ['some', o]])
-        return out
+        return [_offset_of(d, n) for n in TABLE_NAMES]
     def numtags_and_gettag():
         d = make()
         n = d.num_tags()
@@ -876,6 +991,25 @@ def _observe_dyn(make, with_symbols, names):
         syms = [_ok(lambda: make().num_symbols()), _ok(lambda: [_symrepr(s) for s in make().iter_symbols()]),
                 _ok(byname_fresh), _ok(byname_after_miss)]
     return core, syms
+
+
+def _makers(data):
+    """constructors of FRESH Dynamic objects over the image: (DynamicSection, DynamicSegment)"""
+    from elftools.elf.elffile import ELFFile
+    from elftools.elf.dynamic import DynamicSection, DynamicSegment
+    def mk_sec():
+        ef = ELFFile(io.BytesIO(data))
+        for s in ef.iter_sections():
+            if isinstance(s, DynamicSection):
+                return s
+        raise NoDynamicSection()
+    def mk_seg():
+        ef = ELFFile(io.BytesIO(data))
+        for s in ef.iter_segments():
+            if isinstance(s, DynamicSegment):
+                return s
+        raise NoDynamicSegment()
+    return mk_sec, mk_seg
 
 
 def _observe_impl(data, names):
@@ -1106,6 +1240,31 @@ def evaluate(ctx, cases):
         key = _symkey(impl_sym, spec_sym) if in_sym else None
         ctx.record(kind + '-symbols', a, impl=impl_sym, spec=spec_sym, model=model_sym, in_domain=in_sym, nontrivial=nt,
                    key=('sym:' + key) if key else 'sym')
+        # ---- histories: one object per view, a walk interrupted by other questions; the answers are the stateless ones
+        hist = (_d(a).get('hist') if kind == 'img' else (a[1] if len(a) > 1 else None))
+        if in_core and hist is not None:
+            mk1, mk2 = _makers(wk['img']), _makers(wk['img2'])
+            H_impl, H_spec, H_model = [], [], []
+            hkey = None
+            for vi, (view, mk) in enumerate([('sec', mk1[0]), ('seg', mk1[1]), ('seg', mk2[1])]):
+                cv, mv = spec_core[vi], model_core[vi]
+                if not (isinstance(cv, list) and len(cv) == 4 and cv[0][0] == 'ok' and cv[1][0] == 'ok'):
+                    continue
+                tags = cv[0][1]
+                sv = spec_sym[vi] if (vi > 0 and in_sym and isinstance(spec_sym[vi], list) and len(spec_sym[vi]) == 4) else None
+                hs = _history_expected(cv, sv, hist, tags, view, sv is not None)
+                if isinstance(mv, list) and len(mv) == 4 and mv[0][0] == 'ok' and mv[1][0] == 'ok':
+                    msv = model_sym[vi] if sv is not None else None
+                    hm = _history_mask(_history_expected(mv, msv, hist, tags, view, sv is not None), hs)
+                else:
+                    hm = mv
+                hi = _history_mask(_history_impl(mk, hist, tags, view), hs)
+                if hi != hs and hkey is None:
+                    hkey = ['section', 'segment', 'segment-stripped'][vi] + ('/walk' if hi[0] != 'ok' or hi[1][0] != hs[1][0] else '/answers')
+                H_impl.append(hi); H_spec.append(hs); H_model.append(hm)
+            ctx.bump('history', str(hist[2][0][0]) if hist[2] else 'none')
+            ctx.record(kind + '-history', a, impl=H_impl, spec=H_spec, model=H_model, in_domain=True, nontrivial=nt,
+                       key=('hist:' + hkey) if hkey else 'hist')
 
 
 def _strip_file(data):
